@@ -24,8 +24,8 @@ def plan(tier, seed):
     all_leaves = list(L.values())
     forms = catalog.slice_forms()
     # off-diagonal blocks / permuted index arrays of larger declared-self-adjoint parents (.T/.H shortcuts)
-    offs = dict(seeds=list(catalog.big_annotated_leaves().values()), operands=[L["D22"]], small=[L["D22c"]],
-                acts={"Annot", "Sliced"}, lvl=2, dim=5, forms=catalog.offset_forms(), stride=1, ebound=40)
+    offs = dict(seeds=catalog.declared_leaves(), operands=[L["D22"]], small=[L["D22c"]], acts={"Sliced"}, lvl=1, dim=5,
+                forms=catalog.offset_forms(), stride=1, ebound=40)
     if tier == "quick":
         ops = [L[n] for n in ["D23", "D32c", "Dg2c", "Hc22"]]
         seeds2 = [L[n] for n in ["D22c", "D23", "Hc22", "Sy22", "Un22c", "St32", "S33", "Td3", "K22", "H2c", "F4",
